@@ -1,4 +1,5 @@
-import Gtree.Lemmas.HeapGrower
+import Gtree.Generated.Heap.Mkdir
+import Gtree.Lemmas.HeapRepr
 import Gtree.Lemmas.MkBridge
 /-
   The mkdirer of the source (simple_tree_mkdirer.go with file_considerer.go), translated over the heap and the
